@@ -781,11 +781,16 @@ def shards(tier, seed):
         n = 6 if tier == "quick" else 16
         for k in range(n):
             out.append(("conc", kind, k, n))
+    out += [("python-O", ("seq", iface, kind)) for iface in ("wsgi", "asgi") for kind in ("json", "multipart")] + [("python-O", ("readfault",))]
     return out
 
 
 def run_shard(desc, tier):
     r = R()
+    if desc[0] == "python-O":
+        # the same family in an interpreter that runs with assert statements compiled away
+        from ..core import fresh
+        return fresh.optimized(__name__, tuple(desc[1]), tier)
     if desc[0] == "big":
         big_bodies(r)
         return r
@@ -868,6 +873,10 @@ def finish(merged, tier):
 
 
 def replay(w):
+    import sys as _sys
+    if w.get("optimize") and not _sys.flags.optimize:
+        from ..core import fresh
+        return fresh.replay_optimized(__name__, w)
     if w["mode"] == "subrequest":
         r = R()
         sub_requests(r)
